@@ -24,7 +24,16 @@ void property(const pbt::Tape& t, pbt::Ctx& ctx) {
     Rng rng{(uint64_t)g.w() * 0x100000001ull + 777};
     const double fMag = g.logreal(0.01, 100), FMag = g.logreal(0.01, 100), aMag = g.logreal(0.1, 10);
     const bool zeroF = g.chance(1, 8), zeroMob = g.chance(1, 8);
-    if (ctx.wantDesc) { spec.describe(ctx.desc); ctx.desc << "fMag=" << fMag << " FMag=" << FMag << " udotMag=" << aMag << " zeroF=" << zeroF << " zeroMobForces=" << zeroMob << "\n"; }
+    // massless inner bodies (1 case in 4; drawn last, word 0 = off): a body that has a child may lose its mass (connector
+    // frames, massless Welds). Models whose mass matrix becomes (nearly) singular are rejected by the conditioning gate below.
+    bool anyMassless = false;
+    if (g.pick(4) == 3) {
+        const int n = (int)spec.bodies.size(); std::vector<int> nkids(n + 1, 0);
+        for (int i = 0; i < n; ++i) nkids[spec.bodies[i].parent]++;
+        for (int i = 0; i < n; ++i) { bool want = g.pick(3) != 0; if (nkids[i + 1] >= 1 && want) { spec.bodies[i].mass = 0; anyMassless = true; if (spec.bodies[i].type == mbgen::Weld) ctx.label("massless-weld-with-children"); } }
+    }
+    if (anyMassless) ctx.label("massless-inner-body");
+    if (ctx.wantDesc) { spec.describe(ctx.desc); ctx.desc << "fMag=" << fMag << " FMag=" << FMag << " udotMag=" << aMag << " zeroF=" << zeroF << " zeroMobForces=" << zeroMob << (anyMassless ? " (massless inner bodies)" : "") << "\n"; }
     mbgen::labelModel(ctx, spec);
 
     mbgen::Built m(spec);
@@ -152,7 +161,7 @@ pbt::Config config() {
     c.rule = "rapidcheck tape -> mbgen tree (1..7 bodies, 18 mobilizer types, forward/reversed, frame specialisations, quaternion/Euler, non-singular q, u in [-2,2] or all zero) + log-uniform magnitudes for mobility forces, body wrenches on every body incl. Ground and a known udot (tape-seeded). Non-trivial: u != 0, a reversed mobilizer or a rotational mobilizer with a general outboard frame, non-zero body forces and >= 2 bodies; distinct by tape hash.";
     c.assumptions = {"Kane reference uses the library's REPORTED body velocities differentiated in time with 5-point stencils (h=1e-3) along q(t)=q+t*qdot+t^2/2*qdotdot, u(t)=u+t*udot; qdot/qdotdot consistency is C03's subject",
                      "tolerances: 1e-7 x force scale for finite-difference comparisons (probe A: 2.6e-11 observed), 1e4*eps*nu*kappa x scale for algebraic identities; kappa(M_ref) >= 1e8 rejected"};
-    c.requiredLabels = {"mob:Ball/rev/quat", "mob:Free/fwd/euler", "mob:Ellipsoid/fwd/quat", "mob:Gimbal/rev", "mob:Screw/fwd", "u==0", "F==0"};
+    c.requiredLabels = {"mob:Ball/rev/quat", "mob:Free/fwd/euler", "mob:Ellipsoid/fwd/quat", "mob:Gimbal/rev", "mob:Screw/fwd", "u==0", "F==0", "massless-inner-body", "massless-weld-with-children"};
     return c;
 }
 } // namespace
